@@ -45,7 +45,7 @@ structure FloatFacts (F : Type) [VOps F] (B : Int) : Prop where
   dblOpen_unit : ∀ w : UInt64, LT fz (VOps.dblOpen w : F) ∧ LT (VOps.dblOpen w : F) VOps.one
   /- libm: log(±0) = -inf, log(1) = +0, log(u) < 0 on (0,1); exp(-inf) = +0, exp(x) ∈ (0,1] for x ≤ 0; exp is never negative -/
   log_nonpos : ∀ u : F, LE fz u → LE u VOps.one → LE (VOps.log u) fz
-  exp_unit : ∀ x : F, LE x fz → LE fz (VOps.exp x) ∧ LE (VOps.exp x) VOps.one
+  exp_le_one : ∀ x : F, LE x fz → LE (VOps.exp x) VOps.one
   exp_nonneg : ∀ x c : F, LE (VOps.exp x) c → LE fz (VOps.exp x)
   /- (1/k)·x for x ∈ [-inf, 0]: 1/k is finite and positive, the product is ≤ 0 (possibly -0 or -inf) -/
   mul_inv_nonpos : ∀ (k : Int) (x : F), 1 ≤ k → k ≤ B → LE x fz → LE (VOps.mul (VOps.div VOps.one (I k)) x) fz
@@ -55,7 +55,7 @@ structure FloatFacts (F : Type) [VOps F] (B : Int) : Prop where
   mul_int_unit : ∀ (n : Int) (w : F), 1 ≤ n → n ≤ B → LE fz w → LE w VOps.one → LE fz (VOps.mul (I n) w) ∧ LE (VOps.mul (I n) w) (I n)
   /- u < 1 means u ≤ 1-2^-53; n·(1-2^-53) lies at or below the midpoint of pred(n) and n (equal only for n a power of two, where
      it is pred(n) itself), so round-to-nearest gives fl(n·u) ≤ pred(n) < n -/
-  mul_int_lt : ∀ (n : Int) (u : F), 1 ≤ n → n ≤ B → LE fz u → LT u VOps.one → LE fz (VOps.mul (I n) u) ∧ LT (VOps.mul (I n) u) (I n)
+  mul_int_lt : ∀ (n : Int) (u : F), 1 ≤ n → n ≤ B → LE fz u → LT u VOps.one → LT (VOps.mul (I n) u) (I n)
   /- q ∈ [0,1], t an exact integer ≥ 0: fl(q·t) ∈ [0,t] (q·0 = ±0) -/
   mul_unit_int : ∀ (q : F) (t : Int), LE fz q → LE q VOps.one → 0 ≤ t → t ≤ B → LE fz (VOps.mul q (I t)) ∧ LE (VOps.mul q (I t)) (I t)
   /- a product of two non-negative values that is not NaN (it is comparable with some c) is non-negative; inf·0 = NaN is excluded -/
@@ -73,7 +73,21 @@ structure FloatFacts (F : Type) [VOps F] (B : Int) : Prop where
   add_one_mono : ∀ a b : F, LE a b → LE (VOps.add a VOps.one) (VOps.add b VOps.one)
   /- `(int64_t) floor(x)` for 0 ≤ x ≤ n ≤ B (in range of int64: no undefined conversion) -/
   floor_range : ∀ (x : F) (n : Int), 0 ≤ n → n ≤ B → LE fz x → LE x (I n) → 0 ≤ VOps.floorI x ∧ VOps.floorI x ≤ n
-  floor_lt : ∀ (x : F) (n : Int), 1 ≤ n → n ≤ B → LE fz x → LT x (I n) → 0 ≤ VOps.floorI x ∧ VOps.floorI x < n
+  floor_lt : ∀ (x : F) (n : Int), 1 ≤ n → n ≤ B → LE fz x → LT x (I n) → VOps.floorI x < n
+
+/-! Consequences of the list (proved, not assumed; they were fields of `FloatFacts` until round 6): the lower halves of
+    `exp_unit`, `mul_int_lt'`, `floor_lt'` follow from `exp_nonneg`, `mul_int_unit`, `floor_range` and `lt_le`. -/
+theorem FloatFacts.exp_unit {B : Int} (ff : FloatFacts F B) (x : F) (h : LE x fz) :
+    LE fz (VOps.exp x) ∧ LE (VOps.exp x) VOps.one :=
+  ⟨ff.exp_nonneg x VOps.one (ff.exp_le_one x h), ff.exp_le_one x h⟩
+
+theorem FloatFacts.mul_int_lt' {B : Int} (ff : FloatFacts F B) (n : Int) (u : F) (h1 : 1 ≤ n) (hB : n ≤ B) (h0 : LE fz u)
+    (hu : LT u VOps.one) : LE fz (VOps.mul (I n) u) ∧ LT (VOps.mul (I n) u) (I n) :=
+  ⟨(ff.mul_int_unit n u h1 hB h0 (ff.lt_le _ _ hu)).1, ff.mul_int_lt n u h1 hB h0 hu⟩
+
+theorem FloatFacts.floor_lt' {B : Int} (ff : FloatFacts F B) (x : F) (n : Int) (h1 : 1 ≤ n) (hB : n ≤ B) (h0 : LE fz x)
+    (hx : LT x (I n)) : 0 ≤ VOps.floorI x ∧ VOps.floorI x < n :=
+  ⟨(ff.floor_range x n (by omega) hB h0 (ff.lt_le _ _ hx)).1, ff.floor_lt x n h1 hB h0 hx⟩
 
 variable {B : Int} {σ : Type}
 
@@ -367,8 +381,8 @@ theorem vaLoop_abs (ff : FloatFacts F B) (next : σ → UInt64 × σ) (fuel : Na
       have hS : 0 ≤ VOps.floorI (VOps.mul (VOps.round nreal) (VOps.dbl (next s).1 : F)) ∧
                 VOps.floorI (VOps.mul (VOps.round nreal) (VOps.dbl (next s).1 : F)) < r := by
         rw [hnr, ff.round_int r (by omega) hrB]
-        obtain ⟨x0, x1⟩ := ff.mul_int_lt r _ (by omega) hrB hu.1 hu.2
-        exact ff.floor_lt _ r (by omega) hrB x0 x1
+        obtain ⟨x0, x1⟩ := ff.mul_int_lt' r _ (by omega) hrB hu.1 hu.2
+        exact ff.floor_lt' _ r (by omega) hrB x0 x1
       rw [← h1]
       constructor
       · simp only [List.length_cons, Int.natCast_add, Int.natCast_one]; omega
